@@ -203,9 +203,13 @@ func (db *RockDB) SAdd(ts int64, key []byte, args ...[]byte) (int64, error) {
 
 	var ek []byte
 	var num int64 = 0
+	seen := newSeenArgs(len(args))
 	for i := 0; i < len(args); i++ {
 		if err := checkCollKFSize(key, args[i]); err != nil {
 			return 0, err
+		}
+		if seen.seenBefore(args[i]) {
+			continue
 		}
 		ek = sEncodeSetKey(table, rk, args[i])
 
@@ -373,9 +377,13 @@ func (db *RockDB) SRem(ts int64, key []byte, args ...[]byte) (int64, error) {
 	var ek []byte
 
 	var num int64 = 0
+	seen := newSeenArgs(len(args))
 	for i := 0; i < len(args); i++ {
 		if err := checkCollKFSize(key, args[i]); err != nil {
 			return 0, err
+		}
+		if seen.seenBefore(args[i]) {
+			continue
 		}
 
 		ek = sEncodeSetKey(table, rk, args[i])
